@@ -245,6 +245,16 @@ func (x *Exec) localByName(env *SpecEnv, fr *Frame, name string) (specVal, bool)
 				return specVal{term: x.loadFrom(fr, st, fv), typ: et}, true
 			}
 		}
+		// a local the contract names no longer exists: if it was merely renamed (recorded at
+		// baseline time: same type, and the function gained exactly as many new names of that
+		// type as it lost), the clause follows the renamed variable
+		if alt := renamedLocal(fr.fn, base); alt != "" && alt != base {
+			if want > 1 {
+				alt = fmt.Sprintf("%s__%d", alt, want)
+			}
+			x.vc.note(fmt.Sprintf("contract name %q of %s follows the renamed local %q (same type; recorded at baseline time)", name, shortFn(fr.fn), alt))
+			return x.localByName(env, fr, alt)
+		}
 		return specVal{}, false
 	}
 	et := deref(found.Type())
@@ -1221,4 +1231,85 @@ func sameNamedLocals(fn *ssa.Function, base string) []*ssa.Alloc {
 	}
 	sameNamedCache[fn][base] = out
 	return out
+}
+
+// ---- renamed locals ----
+// `govc baseline` records, per function that was a unit of the check, the names and types of its
+// local variables (specs/baseline/<prop>.locals.json). At check time a contract name that no
+// longer resolves is matched against that record.
+
+type localRec struct {
+	Name string
+	Type string
+}
+
+var baselineLocals map[string][]localRec
+
+func localsOf(fn *ssa.Function) []localRec {
+	type cand struct {
+		r   localRec
+		pos token.Pos
+		ord int
+	}
+	var cs []cand
+	seen := map[string]bool{}
+	ord := 0
+	for _, b := range fn.Blocks {
+		for _, ins := range b.Instrs {
+			if a, ok := ins.(*ssa.Alloc); ok && a.Comment != "" && a.Pos().IsValid() && !seen[a.Comment] {
+				seen[a.Comment] = true
+				cs = append(cs, cand{localRec{a.Comment, a.Type().String()}, a.Pos(), ord})
+				ord++
+			}
+		}
+	}
+	sort.SliceStable(cs, func(i, j int) bool { return cs[i].pos < cs[j].pos })
+	var out []localRec
+	for _, c := range cs {
+		out = append(out, c.r)
+	}
+	return out
+}
+
+func renamedLocal(fn *ssa.Function, name string) string {
+	rec, ok := baselineLocals[fn.String()]
+	if !ok {
+		return ""
+	}
+	cur := localsOf(fn)
+	curNames := map[string]bool{}
+	for _, c := range cur {
+		curNames[c.Name] = true
+	}
+	recNames := map[string]bool{}
+	typ := ""
+	for _, r := range rec {
+		recNames[r.Name] = true
+		if r.Name == name {
+			typ = r.Type
+		}
+	}
+	if typ == "" {
+		return ""
+	}
+	var missing, added []string
+	for _, r := range rec {
+		if r.Type == typ && !curNames[r.Name] {
+			missing = append(missing, r.Name)
+		}
+	}
+	for _, c := range cur {
+		if c.Type == typ && !recNames[c.Name] {
+			added = append(added, c.Name)
+		}
+	}
+	if len(missing) == 0 || len(missing) != len(added) {
+		return ""
+	}
+	for i, m := range missing {
+		if m == name {
+			return added[i]
+		}
+	}
+	return ""
 }
